@@ -16,7 +16,7 @@ import (
 
 func init() {
 	register("C09", "exploration", checkC09)
-	workers["jws"] = func(args []string) { hx.ServeWorker(args[0], jwsCall) }
+	workers["jws"] = func(args []string) { hx.ServeWorker(args[0], probed(jwsCall, jwsProbe)) }
 }
 
 type jwsCase struct {
